@@ -126,7 +126,7 @@ class Execution:
 
 
 def run_program(world, calls, order, preemptions, mp_mode=False, keep_dir=False, on=None, read_boundaries=False,
-                instances=None, extra_on_op=None, expire_timed=False):
+                instances=None, extra_on_op=None, expire_timed=False, source_reads=False):
     """Run the calls (one thread each) on a fresh copy of the start state under the given schedule
     (or, with on=(directory, store), on an existing store instance).  instances=[i, ...]: call n goes through
     store instance i (several FileHashStore objects opened on the same directory in this process)."""
@@ -140,7 +140,9 @@ def run_program(world, calls, order, preemptions, mp_mode=False, keep_dir=False,
     if instances:
         stores += [sched.make_owned_store(d, world.cfg, mp_mode) for _ in range(max(instances))]
     s = sched.Sched(d)
-    s.ctx.read_boundaries = read_boundaries
+    s.ctx.read_boundaries = read_boundaries or source_reads
+    if source_reads:
+        s.ctx.extra_read_roots = [os.path.realpath(world.run.src), world.run.src]
     s.expire_timed_waits = expire_timed
     if extra_on_op is not None:
         s.extra_on_op = extra_on_op() if isinstance(extra_on_op, type) or getattr(extra_on_op, "is_factory", False) else extra_on_op
